@@ -13,6 +13,12 @@ defined per registry), the result of every route (in_base first and second call,
 in_cgs/in_mks, get_base_equivalent, in_base of the result) carries a unit whose data is what its
 printed expression resolves to in the QUANTITY's registry, denotes the same physical quantity there,
 converts back to the original numbers and is unchanged by `.to(str(units))`.
+Registry histories (`c10_registry_history`): over seeded histories of accepted and REJECTED constructions
+(fresh names, names registered earlier, built-in names), memoising look-ups, overrides and look-ups by
+name / by object: a construction that raised leaves `unit_system_registry` and every registered object
+untouched; every registered system is registered under its own name with base units of their slots'
+dimensions; an accepted construction is registered at once, touches no other entry and is usable by name
+immediately; conversions by name into every (re)registered system obey the oracle above.
 
 Correspondence: the compiled Lean model (`drv_c10`) is run on the same inputs (the live
 `units_map` travels with every request) and must give the same unit, value, exception class and
@@ -28,8 +34,9 @@ import gen
 
 # The chunked kernel obligations (UnytProofs/C10Tab/*) are imported by these two modules, whose
 # combined theorems depend on every chunk theorem (so `#print axioms` covers them transitively).
-QUICK_MODULES = ["UnytProofs.C10", "UnytProofs.Real.C10Real"]
-THOROUGH_MODULES = ["UnytProofs.C10", "UnytProofs.Real.C10Real", "UnytProofs.C10Pre", "UnytProofs.Real.C10RealInit"]
+QUICK_MODULES = ["UnytProofs.C10", "UnytProofs.Real.C10Real", "UnytProofs.C10Registry", "UnytProofs.C10RegistryTab", "UnytProofs.C10RegistryWF"]
+THOROUGH_MODULES = ["UnytProofs.C10", "UnytProofs.Real.C10Real", "UnytProofs.C10Registry", "UnytProofs.C10RegistryTab", "UnytProofs.C10RegistryWF", "UnytProofs.C10Pre", "UnytProofs.Real.C10RealInit",
+                    "UnytProofs.Real.C10RealRegistry"]
 
 ORACLE = r'''
 import math, sys, warnings
@@ -297,6 +304,153 @@ def c10_reg_oracle(sysname, unit, x, reg):
     return fails
 '''
 
+# ---- unit_system_registry as a state machine: histories of constructions (accepted and rejected),
+# ---- re-registration, memoising look-ups, overrides, look-ups by name and by object
+REGORACLE = r"""
+from unyt.unit_registry import _sanitize_unit_system
+
+C10_KW = ["length_unit", "mass_unit", "time_unit", "temperature_unit", "angle_unit", "current_mks_unit",
+          "luminous_intensity_unit", "logarithmic_unit"]
+
+def c10_registry_snapshot():
+    return [(k, id(v), list(v.units_map.items()), list(v.base_units.items()), getattr(v, "name", None))
+            for k, v in unit_system_registry.items()]
+
+def c10_registry_consistent(fails, when):
+    # "for every registered unit system": it is registered under its own name and every base unit
+    # has the dimension of the slot it fills (= it passed the check of the constructor)
+    for name, S in list(unit_system_registry.items()):
+        if getattr(S, "name", None) != name:
+            fails.append(("registered-under-other-name", f"{when}: unit_system_registry[{name!r}].name is {getattr(S, 'name', None)!r}"))
+        for dim, unit in S.base_units.items():
+            if unit is None and dim is D.current_mks:
+                continue
+            try:
+                ok = Unit(unit, registry=S.registry).dimensions == dim
+            except Exception:
+                ok = False
+            if not ok:
+                fails.append(("inconsistent-system-registered", f"{when}: registered system {name!r} has base unit {unit} for {dim}"))
+                break
+
+def c10_registry_usable(name, units, fails, tag, when):
+    # conversions BY NAME into a registered system obey the property (plain-route units only)
+    for us in units:
+        try:
+            v, f, detail = c10_oracle(name, us, 2.5)
+        except Exception as e:
+            fails.append((f"{tag}|raises|{type(e).__name__}", f"{when}: 2.5 {us} .in_base({name!r}) raised {e!r}"[:400]))
+            continue
+        for k in f:
+            fails.append((f"{tag}|{k}", f"{when}: {us} into {name!r}: {detail}"[:400]))
+
+def c10_registry_history(hist, observe=None, units=("kg", "km/s", "J")):
+    # run a history on the live unit_system_registry -> (fails [(kind, detail)], trace); the registry
+    # dict is restored afterwards.  ops: ("C", name, [eight argument sources], use_registry),
+    # ("G", obj, dimension name), ("S", obj, dimension name, unit string), ("N", name), ("O", obj);
+    # obj = index into the list of live objects (registered ones first, then every accepted construction)
+    saved = list(unit_system_registry.items())
+    objs = [S for _, S in saved]
+    fails, trace = [], []
+    def index(S):
+        for i, o in enumerate(objs):
+            if o is S:
+                return i
+        return -1
+    try:
+        for step, op in enumerate(hist):
+            when = f"step {step} {op[0]}"
+            if op[0] == "C":
+                _, name, args, use_reg = op
+                was = "registered" if name in unit_system_registry else "fresh"
+                kwargs = {k: eval(a) for k, a in zip(C10_KW, args)}
+                if use_reg:
+                    kwargs["registry"] = UnitRegistry()
+                before = c10_registry_snapshot()
+                try:
+                    S = UnitSystem(name, **kwargs)
+                except Exception as e:
+                    trace.append(("raised", type(e).__name__))
+                    # "rejected at construction": nothing is registered, nothing registered is replaced or altered
+                    after = c10_registry_snapshot()
+                    if after != before:
+                        changed = sorted({a[0] for a in after if a not in before} | {b[0] for b in before if b not in after})
+                        fails.append((f"rejected-construction|{was}|registry-changed",
+                                      f"{when}: UnitSystem({name!r}, {', '.join(args)}) raised {type(e).__name__} but the registry entries {changed} changed"))
+                else:
+                    objs.append(S)
+                    trace.append(("built", len(objs) - 1))
+                    after = c10_registry_snapshot()
+                    # "usable immediately": registered under its name at once; no other entry touched
+                    if unit_system_registry.get(name) is not S or getattr(S, "name", None) != name:
+                        fails.append(("accepted-not-registered", f"{when}: UnitSystem({name!r}, ...) returned but unit_system_registry[{name!r}] is not it"))
+                    if [a for a in after if a[0] != name] != [b for b in before if b[0] != name]:
+                        fails.append(("accepted-construction|other-entries-changed", f"{when}: constructing {name!r} changed other registry entries"))
+                    c10_registry_usable(name, units[:2], fails, "usable-immediately", when)
+                c10_registry_consistent(fails, when)
+            elif op[0] == "G":
+                try:
+                    objs[op[1]][op[2]]
+                    trace.append(("unit", None))
+                except Exception as e:
+                    trace.append(("raised", type(e).__name__))
+            elif op[0] == "S":
+                try:
+                    objs[op[1]][op[2]] = op[3]
+                    trace.append(("done", None))
+                except Exception as e:
+                    trace.append(("raised", type(e).__name__))
+            elif op[0] == "N":
+                try:
+                    S = _sanitize_unit_system(op[1], None)
+                    trace.append(("system", index(S)))
+                    if S is not unit_system_registry.get(op[1]):
+                        fails.append(("lookup|by-name", f"{when}: the name {op[1]!r} does not resolve to unit_system_registry[{op[1]!r}]"))
+                except Exception as e:
+                    trace.append(("raised", type(e).__name__))
+                    if op[1] in unit_system_registry:
+                        fails.append(("lookup|by-name", f"{when}: the registered name {op[1]!r} raised {type(e).__name__}"))
+            elif op[0] == "O":
+                o = objs[op[1]]
+                try:
+                    S = _sanitize_unit_system(o, None)
+                    trace.append(("system", index(S)))
+                    ok = S is unit_system_registry.get(o.name)
+                    if ok and S is o:
+                        a = unyt_quantity(2.5, "kg").in_base(o)
+                        b = unyt_quantity(2.5, "kg").in_base(o.name)
+                        ok = c10_same_unit(a.units, b.units) and float(a.v) == float(b.v)
+                    if not ok:
+                        fails.append(("lookup|by-object", f"{when}: the object named {o.name!r} does not resolve like its name"))
+                except Exception as e:
+                    trace.append(("raised", type(e).__name__))
+                    if o.name in unit_system_registry:
+                        fails.append(("lookup|by-object", f"{when}: an object whose name {o.name!r} is registered raised {type(e).__name__}"))
+        # at the end: every system registered by this history obeys the property when used BY NAME
+        c10_registry_consistent(fails, "end")
+        old = dict(saved)
+        for name in list(unit_system_registry):
+            if unit_system_registry[name] is not old.get(name):
+                c10_registry_usable(name, units[1:], fails, "registered-usable", "end")
+        if observe is not None:
+            observe(objs, list(unit_system_registry.items()))
+    finally:
+        unit_system_registry.clear()
+        unit_system_registry.update(saved)
+    seen, out = set(), []
+    for k, d in fails:
+        if k not in seen:
+            seen.add(k); out.append((k, d))
+    return out, trace
+"""
+
+
+def registry_replay(hist, kind):
+    """self-contained snippet: runs the history and fails iff the clause `kind` fails"""
+    return (ORACLE + REGORACLE + f"\nHIST = {hist!r}\nfails, trace = c10_registry_history(HIST)\n"
+            f"bad = [f for f in fails if f[0] == {kind!r}]\nassert not bad, bad\n")
+
+
 CLOSURE_KINDS = {"outside", "notfixed"}
 
 
@@ -387,6 +541,8 @@ def run(tier, seed):
     from unyt.unit_registry import UnitRegistry
     from unyt.unit_systems import UnitSystem, unit_system_registry
 
+    import time as _time0
+    core_t0 = _time0.time()
     chk = core.Check("C10", tier, seed)
     modules = QUICK_MODULES if tier == "quick" else THOROUGH_MODULES
     chk.proof = core.prove("C10", modules, extra_targets=("drv_c10",), tier=tier)
@@ -444,6 +600,179 @@ def run(tier, seed):
                 want = {gen.dim_vec(k): ("0" if gen.dim_vec(k) in basek else "1" if gen.dim_vec(k) in declared else "2") for k in S.units_map}
                 if kinds != want:
                     chk.disagree("c10.syskinds", f"{n}: declared/memoised classification differs")
+
+    # ------------------------------------------------------------------ 1b. unit_system_registry as a state machine
+    # histories of constructions (accepted and REJECTED, under fresh names and under names that are already
+    # registered), memoising look-ups, overrides, look-ups by name and by object: direct oracle after every step
+    # (`c10_registry_history`) + the model's `SysWorld.trace` on the same history (`c10.hist`)
+    import time as _time1b
+    _t1b = _time1b.time()
+    ns_reg = {}
+    exec(ORACLE + REGORACLE, ns_reg)
+    reg_history = ns_reg["c10_registry_history"]
+    good_pool = [["m", "cm", "km", "mm", "ft", "pc", "kpc", "AU"], ["kg", "g", "mg", "Msun", "lb"], ["s", "ms", "yr", "Myr", "hr"],
+                 ["K", "R"], ["rad", "deg"], ["A", "mA"], ["cd"], ["Np", "B"]]
+    reg_dims = ["energy", "velocity", "force", "pressure", "density", "frequency", "charge_mks", "area", "power", "specific_energy", "magnetic_field_cgs"]
+    reg_over = {"energy": ["erg", "J", "keV"], "force": ["dyne", "N"], "pressure": ["Pa"], "velocity": ["km/s"], "power": ["W", "hp"],
+                "charge_mks": ["C"], "frequency": ["Hz"]}
+
+    def good_args():
+        out = []
+        for j, pool in enumerate(good_pool):
+            r_ = rng.random()
+            s_ = rng.choice(pool)
+            if j == 5 and r_ < 0.15:
+                out.append("None")
+            elif j < 3 and r_ < 0.2:
+                out.append(f"unyt_quantity({rng.choice([3.0, 0.5, 10.0])!r}, {s_!r})")
+            else:
+                out.append(repr(s_))
+        return out
+
+    def bad_args():
+        a = good_args()
+        k = rng.randrange(5)
+        if k == 0:      # two slots swapped (the classic slip)
+            i_, j_ = rng.sample(range(3), 2)
+            a[i_], a[j_] = a[j_], a[i_]
+            if a[i_] == a[j_]:
+                a[i_] = repr("K")
+        elif k == 1:    # a unit of another dimension in one slot
+            i_ = rng.randrange(8)
+            j_ = rng.choice([x_ for x_ in range(8) if x_ != i_])
+            a[i_] = repr(rng.choice(good_pool[j_]))
+        elif k == 2:    # a compound where a base unit is expected
+            a[rng.randrange(3)] = repr(rng.choice(["km/s", "g*cm", "cm**2"]))
+        elif k == 3:    # an empty slot other than current
+            a[rng.choice([0, 1, 2, 3, 4, 6, 7])] = "None"
+        else:           # a symbol no table knows
+            a[rng.randrange(8)] = repr("nosuchunit")
+        return a
+
+    def arg_wire(src):
+        v = eval(src, {"unyt_quantity": unyt_quantity})
+        if v is None:
+            return "none"
+        if hasattr(v, "value") and hasattr(v, "units"):
+            return expr_to_wire(v.value * v.units.expr)
+        return expr_to_wire(parse_unyt_expr(str(v)))
+
+    nhist = 24 if tier == "quick" else 300
+    hist_lines, hist_expect = [], []
+    start_items = list(unit_system_registry.items())
+    n0 = len(start_items)
+    for h in range(nhist):
+        names = [f"c10r_{seed}_{h}_{c}" for c in "abc"]
+        hist, wire = [], []
+        nobj = n0
+        nreg = {}
+        # shape of the history: always at least one accepted construction followed (not necessarily at once)
+        # by a rejected construction under the SAME name and by uses of that name
+        plan = ["Cg", rng.choice(["G", "N", "S", "Cg"]), "Cb-same", "N-same", rng.choice(["O", "G", "Cb-fresh", "Cb-builtin"])]
+        plan += [rng.choice(["Cg", "Cb-same", "Cb-fresh", "Cb-builtin", "Cg-same", "G", "S", "N", "N-same", "N-unknown", "O"]) for _ in range(rng.randint(2, 7))]
+        last_name = None
+        for what in plan:
+            if what.startswith("C"):
+                if what.endswith("-same") and last_name is not None:
+                    name = last_name
+                elif what == "Cb-builtin":
+                    name = rng.choice(builtin)
+                else:
+                    name = rng.choice(names)
+                args = good_args() if what.startswith("Cg") else bad_args()
+                use_reg = rng.random() < 0.15
+                hist.append(("C", name, args, use_reg))
+                try:
+                    wire.append("!".join(["C", name, "1" if use_reg else "0"] + [arg_wire(a) for a in args]))
+                except Exception:
+                    wire.append(None)
+                if what.startswith("Cg"):
+                    last_name = name
+                    nreg[name] = nobj
+                    nobj += 1
+                chk.count("registry-op:construct-" + ("consistent" if what.startswith("Cg") else "inconsistent")
+                          + ("|registered-name" if name in nreg and nreg[name] != nobj - 1 or name in builtin or what.endswith("-same") else "|fresh-name"))
+            elif what == "G":
+                i_ = rng.randrange(nobj)
+                dn = rng.choice(reg_dims)
+                hist.append(("G", i_, dn))
+                wire.append(f"G!{i_}!{gen.dim_vec(getattr(D, dn))}")
+                chk.count("registry-op:getitem")
+            elif what == "S":
+                if nobj == n0:
+                    continue
+                i_ = rng.randrange(n0, nobj)  # overrides only on systems of this history (the built-in ones are shared with the rest of the run)
+                dn = rng.choice(sorted(reg_over))
+                us = rng.choice(reg_over[dn])
+                hist.append(("S", i_, dn, us))
+                wire.append(f"S!{i_}!{gen.dim_vec(getattr(D, dn))}!{expr_to_wire(parse_unyt_expr(us))}")
+                chk.count("registry-op:setitem")
+            elif what.startswith("N"):
+                name = last_name if what == "N-same" and last_name else "c10r_nobody" if what == "N-unknown" else rng.choice(names + builtin)
+                hist.append(("N", name))
+                wire.append(f"N!{name}")
+                chk.count("registry-op:by-name")
+            else:
+                i_ = rng.randrange(nobj)
+                hist.append(("O", i_))
+                wire.append(f"O!{i_}")
+                chk.count("registry-op:by-object")
+        seen_state = {}
+
+        def observe(objs, items, seen_state=seen_state):
+            seen_state["objs"] = [(getattr(o, "name", None), um_dict(o.units_map), um_dict(o.base_units)) for o in objs]
+            seen_state["names"] = [(k, next((i for i, o in enumerate(objs) if o is v), -1)) for k, v in items]
+
+        init_items = ["!".join(["I", k, um_wire(v.units_map), um_wire(v.base_units)]) for k, v in unit_system_registry.items()]
+        try:
+            fails, trace = reg_history(hist, observe=observe)
+        except Exception as e:
+            chk.disagree("c10.hist", f"the history runner raised {e!r} on {hist!r}"[:600])
+            continue
+        chk.case(("registry-history", h), {"history": [list(map(str, o)) for o in hist[:6]], "answers": [list(map(str, t)) for t in trace[:6]]} if h < 2 else None)
+        for t in trace:
+            chk.count("registry-answer:" + t[0] + ("|" + t[1] if t[0] == "raised" else ""))
+        for kind, detail in fails:
+            chk.fail("registry|" + kind, f"history {hist!r}: {detail}"[:900], {"python": registry_replay(hist, kind)})
+        if all(w is not None for w in wire) and "objs" in seen_state:
+            hist_lines.append("\t".join(["c10.hist"] + init_items + wire))
+            hist_expect.append((hist, trace, seen_state))
+    rep = ask(hist_lines)
+    for r, (hist, trace, seen_state) in zip(rep, hist_expect):
+        chk.count("model:registry-history")
+        if r[0] == "nomodel":
+            break
+        if r[0] != "ok" or len(r) < 4 + len(trace):
+            chk.disagree("c10.hist", f"{hist!r}: model reply {r[:3]}")
+            continue
+        nops = int(r[1])
+        answers, names_m, inv_m, objs_m = r[2:2 + nops], r[2 + nops], r[3 + nops], r[4 + nops:]
+        if inv_m != "1":
+            chk.disagree("c10.hist", f"{hist!r}: the model's final state violates the registry invariant")
+        for stepno, (a, t) in enumerate(zip(answers, trace)):
+            kind, _, val = a.partition(":")
+            okk = (kind == t[0]) and (
+                (kind in ("built", "system") and int(val) == t[1]) or kind in ("unit", "done")
+                or (kind == "raised" and val == {"AttributeError": "Other"}.get(t[1], t[1])))
+            if not okk:
+                chk.disagree("c10.hist", f"{hist!r}: step {stepno} {hist[stepno]!r}: library {t}, model {a}")
+                break
+        live_names = seen_state["names"]
+        model_names = [tuple(x.split("=")) for x in names_m.split(",")] if names_m else []
+        if [(k, str(i)) for k, i in live_names] != model_names:
+            chk.disagree("c10.hist", f"{hist!r}: unit_system_registry afterwards is {live_names}, the model has {model_names}")
+        if len(objs_m) != len(seen_state["objs"]):
+            chk.disagree("c10.hist", f"{hist!r}: {len(seen_state['objs'])} live objects, the model has {len(objs_m)}")
+        else:
+            for i_, (om, (lname, lum, lbase)) in enumerate(zip(objs_m, seen_state["objs"])):
+                mname, mum, mbase = om.split("#")
+                # the oracle's own conversions memoise further dimensions in the live objects: the model's map must be contained
+                if mname != lname or not um_subset(parse_um(mum), lum) or not same_um(parse_um(mbase), lbase):
+                    chk.disagree("c10.hist", f"{hist!r}: object {i_} ({lname}) differs from the model's afterwards")
+                    break
+
+    if os.environ.get("C10_DEBUG"):
+        print(f"section 1b took {_time1b.time() - _t1b:.1f} s (start at {_t1b - core_t0:.1f} s)")
 
     # ------------------------------------------------------------------ 2. built-in systems x atomic units (x prefixes)
     all_pre = list(ex["prefixes"].keys())
@@ -731,6 +1060,11 @@ def run(tier, seed):
             created.append(name)
         except Exception as e:
             res = ("err", core.exc_name(e))
+            if name in unit_system_registry:  # "rejected at construction": nothing may be registered
+                chk.fail("registry|rejected-construction|fresh|registry-changed",
+                         f"{setup.strip()} raised {res[1]} but unit_system_registry[{name!r}] exists afterwards",
+                         {"python": ORACLE + "\ntry:\n    " + setup + "except Exception:\n    pass\nelse:\n    sys.exit(0)\n"
+                          + f"assert {name!r} not in unit_system_registry\n"})
             unit_system_registry.pop(name, None)
         chk.count("user-init:" + (res[0] if res[0] == "ok" else res[1]))
         chk.case(("user-init", i), {"setup": setup.strip(), "outcome": res[0] if res[0] == "ok" else res[1]} if i < 3 else None)
@@ -1198,7 +1532,8 @@ def run(tier, seed):
             "seeded compounds (incl. EM units), seeded user-defined systems (random base units incl. prefixed, offset and quantity-valued ones, "
             "invalid ones, overrides) x units, code-unit registries, quantities of registries that re-value or re-define the base/declared symbols of "
             "the target system (built-in, user systems with and without a registry of their own, code systems of another registry) x every route; distinct = distinct (kind, system, unit) or (getitem, system, dimension); "
-            "every case is a conversion into a system's base units or a look-up/synthesis/validation step of one")
+            "every case is a conversion into a system's base units or a look-up/synthesis/validation step of one; "
+            "registry histories (accepted/rejected constructions under fresh, re-used and built-in names, getitem, setitem, look-up by name and by object): one case per history")
     chk.assumptions = [
         "the parser (parse_unyt_expr) is outside the model: expressions travel parsed",
         "the process-wide lru_cache on _check_em_conversion is not modelled (generated histories apply overrides before conversions)",
